@@ -166,13 +166,45 @@ def _inputs_for(draw, tree, depth=0):
     return out
 
 
+def _port_paths(tree, path=()):
+    for name, sub in tree['ports'].items():
+        if sub['kind'] == 'ns':
+            yield from _port_paths(sub, path + (name,))
+        else:
+            yield list(path + (name,)), sub
+
+
+@st.composite
+def _adjustments(draw, tree):
+    """The spec is adjusted after the declaration through the port setters (what a subclass' define does)."""
+    ports = list(_port_paths(tree))
+    out = []
+    for path, port in ports:
+        if draw(st.integers(0, 1)) == 0:
+            continue
+        choices = ['valid_type', 'validator']
+        if port.get('default') is not None:
+            choices += ['default', 'default']  # only the value of an existing default changes (required stays as it is)
+        attr = draw(st.sampled_from(choices))
+        if attr == 'default':
+            out.append([path, 'default', [port['default'][0] if port['default'][0] != 'counter' else 'plain', draw(LEAF_VALUES)]])
+        elif attr == 'valid_type':
+            out.append([path, 'valid_type', draw(st.sampled_from(['int', 'str', 'num']))])
+        else:
+            out.append([path, 'validator', draw(st.sampled_from(['nonneg', 'short', 'never', 'always']))])
+    return out
+
+
 @st.composite
 def _cases(draw, tier):
     tree = draw(_ns(2 if tier == 'quick' else 3))
     inputs = draw(_inputs_for(tree))
     if draw(st.integers(0, 9)) == 0:
         inputs = None
-    return {'spec': tree, 'inputs': inputs}
+    case = {'spec': tree, 'inputs': inputs}
+    if draw(st.integers(0, 3)) == 0:
+        case['adjust'] = draw(_adjustments(tree))
+    return case
 
 
 def strategy(tier):
@@ -204,15 +236,18 @@ def _no_tuples(value):
 
 def execute(case):
     viol = []
+    reloaded = False
+    load_note = None
 
     def v(clause, detail):
         viol.append({'clause': clause, 'detail': detail})
 
-    tree = case['spec']
+    declared = case['spec']
+    tree = pm.adjusted(declared, case.get('adjust'))
     given = case['inputs']
     # the model decides first
     accepted, parsed = pm.accepts_inputs(tree, copy.deepcopy(given) if given is not None else {})
-    program = {'steps': [{'async': False, 'body': [], 'ret': ['value', 0]}], 'spec': {'inputs': tree}}
+    program = {'steps': [{'async': False, 'body': [], 'ret': ['value', 0]}], 'spec': {'inputs': declared, 'adjust': case.get('adjust') or []}}
     cls = make_class(program)
     caller = copy.deepcopy(given)
     snapshot = copy.deepcopy(caller)
@@ -247,6 +282,31 @@ def execute(case):
                 except Exception as exc:  # noqa: BLE001
                     v('inputs-mutable', f'unexpected {type(exc).__name__} at level {".".join(path)}')
                     break
+        if proc is not None and accepted and not viol:
+            # the same holds for the process recreated from a saved state
+            from plumpy import persistence
+
+            try:
+                with ex.loop.as_running():
+                    loaded = persistence.Bundle(proc).unbundle(persistence.LoadSaveContext(loop=ex.loop))
+            except Exception as exc:  # noqa: BLE001 - whether a process can be saved is C07's business
+                loaded = None
+                load_note = type(exc).__name__
+            if loaded is not None:
+                reloaded = True
+                got = plain(loaded.inputs)
+                if got != parsed:
+                    v('reloaded-inputs', f'inputs of the reloaded process = {got!r} expected {parsed!r}')
+                for path, level in _frozen_levels(tree, loaded.inputs):
+                    try:
+                        level['__probe__'] = 1
+                        v('reloaded-inputs-mutable', f'item assignment succeeded at level {".".join(path) or "<top>"} of the reloaded process')
+                        break
+                    except TypeError:
+                        pass
+                    except Exception as exc:  # noqa: BLE001
+                        v('reloaded-inputs-mutable', f'unexpected {type(exc).__name__} at level {".".join(path)}')
+                        break
         # the caller's dictionary stays exactly as given
         if caller != snapshot:
             v('caller-dict-changed', f'{caller!r} was {snapshot!r}')
@@ -264,6 +324,12 @@ def execute(case):
         classes.append('default-populated')
     if given is None:
         classes.append('inputs-none')
+    if reloaded:
+        classes.append('reloaded')
+    if load_note:
+        classes.append('not-savable:' + load_note)
+    if case.get('adjust'):
+        classes.append('spec-adjusted-after-declaration')
     return {
         'violations': viol,
         'nontrivial': bool(nested and (not accepted or populated)),
